@@ -36,15 +36,24 @@ RULE = ("(a) exhaustive: every boolean mask of every shape with H*W <= 6 (quick)
         "caller's inputs (mask, map, sub-values, grid values, arrays given to the util functions) must be unchanged and every earlier "
         "result must still hold what it held when returned. (e) value ranges: functions scaled by 2^-40..2^30 (with scaled absolute "
         "tolerances), functions vanishing at SOME pixel centres, functions whose sub-size-2 mean is exactly 0 in a row of pixels "
-        "with a positive centre value. distinct = distinct JSON input.")
+        "with a positive centre value. (f) input KINDS, in every stream: user functions that return INTEGER / BOOL arrays (indicator p > c, "
+        "count of thresholds passed, sign, floor of a polynomial p; boundaries directed through pixel centres / corners: half- and quarter-covered "
+        "pixels) as bool / int64 / int32 / int16 / int8 / uint8 / float32 / float16 / float64 arrays, Python lists or ArrayIrregular objects, and "
+        "real-valued functions as float32 arrays (where exact), lists, ArrayIrregular; sub-values for binned_array_2d_from in the same dtypes / "
+        "containers (the mean of integer sub-values is compared with the exact rational mean); integer-typed pixel scales and origins; masks given "
+        "as int arrays / lists of lists; sub-size maps as int32 arrays / lists; instances of user SUBCLASSES of Grid2D, OverSamplingUniform, "
+        "OverSamplingIterate, Grid2DOverSampled. After every history also: every array a user function returned and the attributes of every "
+        "OverSampling* configuration object / OverSamplerIterate must be unchanged. Integer-valued functions on non-dyadic geometry are skipped "
+        "(and counted) when a sub-pixel centre lies within 1e-6 of a jump. distinct = distinct JSON input.")
 EXHAUSTIVE = {
     "quick": "all boolean masks of all shapes with H*W <= 6 (394 masks): over-sampled grid at uniform sub-size 1 and 2 (and 4 for every third mask); "
              "slim_for_sub_slim and binning of distinct integers at one of these sub-sizes per mask (rotating)",
     "thorough": "all boolean masks of all shapes with H*W <= 8 x uniform sub-size {1,2,4}",
 }
 TRUSTED = ["state kept by OverSamplerIterate / OverSampling* configuration objects / GridsDataset between calls is NOT modelled (the model is the pure function): tied by the shared-object sequences only",
-           "correspondence harness harness/c09.py (the user function is the SAME coefficient list on both sides: numpy evaluation "
-           "in the implementation, eval_ufun at QOps in the model)",
+           "correspondence harness harness/c09.py (the user function is the SAME coefficient list (+ post-composition indicator / count / sign / floor) "
+           "on both sides: numpy evaluation in the implementation, eval_ufun at QOps in the model; the dtype / container the function returns its "
+           "values in is not part of the mathematical function and does not appear in the model)",
            "Array2D slim/native conversion modelled structurally (Model.C09.to_native / to_slim; subject of C01)",
            "numpy float64 semantics of x / 0.0 = inf in threshold_mask_via_arrays_jit_from (numba absent), modelled by an explicit branch"]
 ASSUMPTIONS = ["the sub-size map and the mask are not edited in place after a cached property of the over sampler has been read (cached_property by design)",
@@ -65,9 +74,14 @@ def cnats(l): return clist([cnat(x) for x in l])
 def cqq(p): return ctup([cq(F(p[0])), cq(F(p[1]))])
 def cqs(l): return clist([cq(x) for x in l])
 def cqqs(l): return clist([ctup([cq(a), cq(b)]) for a, b in l])
+def cpost(f):
+    p = f.get("post")
+    if not p: return "PId"
+    if p["k"] == "count": return f"(PCount ({int(p['off'])})%Z {cqs([F(c) for c in p['cuts']])})"
+    return {"sign": "PSign", "floor": "PFloor"}[p["k"]]
 def cufun(f):
     ts = clist([ctup([cnat(i), cnat(j), cq(F(c))]) for i, j, c in f["terms"]])
-    return f"(Build_ufun Q {cbool(f['absy'])} {cbool(f['absx'])} {ts})"
+    return f"(Build_ufun Q {cbool(f['absy'])} {cbool(f['absx'])} {ts} {cpost(f)})"
 def cos_(os):
     if os["kind"] == "int": return f"(CUniformInt {cnat(os['s'])})"
     if os["kind"] == "map": return f"(CUniformMap {cnats(os['ss'])})"
@@ -87,12 +101,43 @@ def np_ufun(f):
         acc = np.zeros_like(y)
         for i, j, c in f["terms"]:
             acc = acc + float(F(c)) * powr(u, i) * powr(v, j)
-        return acc
+        v = as_kind(np_post(f.get("post"), acc), f.get("dt"))
+        if f.get("cont") == "irr" and not isinstance(v, list):      # what @aa.grid_dec.to_array hands back on an irregular grid
+            v = import_aa().ArrayIrregular(values=v)
+        RETS.append((v, ret_values(v)))
+        return v
     return g
+RETS = []       # everything the user functions returned in this run_case: a call must not modify it (a profile may return a stored array)
+def ret_values(v): return [float(x) for x in (v if isinstance(v, list) else np.asarray(v).ravel())]
+def np_post(p, acc):
+    """what users write with comparisons: indicator / count / sign / floor functions return BOOL or INTEGER arrays"""
+    if not p: return acc
+    if p["k"] == "count":
+        if p["off"] == 0 and len(p["cuts"]) == 1: return acc > float(F(p["cuts"][0]))            # a bool array
+        r = np.full(acc.shape, int(p["off"]), dtype=np.int64)
+        for c in p["cuts"]: r = r + (acc > float(F(c)))
+        return r
+    if p["k"] == "sign": return np.sign(acc).astype(np.int64)
+    if p["k"] == "floor": return np.floor(acc).astype(np.int64)
+    raise ValueError(p)
+def as_kind(v, dt):
+    """the dtype / container of the returned array (the VALUES are the same: every cast below is exact)"""
+    if dt is None: return v
+    if dt == "list": return v.tolist()
+    if dt == "f32ok":           # float32 where every value is representable, else unchanged
+        w = v.astype(np.float32)
+        return w if np.array_equal(w.astype(np.float64), v.astype(np.float64)) else v
+    return v.astype(dt)
+def fr_post(p, v):
+    if not p: return v
+    if p["k"] == "count": return F(int(p["off"]) + sum(1 for c in p["cuts"] if F(c) < v))
+    if p["k"] == "sign": return F((v > 0) - (v < 0))
+    if p["k"] == "floor": return F(v.numerator // v.denominator)
+    raise ValueError(p)
 def fr_ufun(f, y, x):
     u = abs(y) if f["absy"] else y
     v = abs(x) if f["absx"] else x
-    return sum((F(c) * u ** i * v ** j for i, j, c in f["terms"]), F(0))
+    return fr_post(f.get("post"), sum((F(c) * u ** i * v ** j for i, j, c in f["terms"]), F(0)))
 
 # independent exact reference used ONLY to classify inputs (finding class, decision margins) -- never compared
 def ref_centre(m, ps, og, p):
@@ -160,8 +205,64 @@ def rand_poly(rng, kind=None):
     absx = kind == "abs" and rng.random() < 0.7
     return {"absy": absy, "absx": absx, "terms": terms}
 def scaled(f, k):
-    """every coefficient times 2^k (exact)"""
-    return {"absy": f["absy"], "absx": f["absx"], "terms": [[i, j, fs(F(c) * F(2) ** k)] for i, j, c in f["terms"]]}
+    """every coefficient times 2^k (exact); integer-valued functions (post) are left as they are"""
+    if f.get("post"): return f
+    g = dict(f); g["terms"] = [[i, j, fs(F(c) * F(2) ** k)] for i, j, c in f["terms"]]
+    return g
+INT_DT = ["int64", "int64", "int32", "int16", "int8", "float32", "float16", "float64", "list", None]
+def rand_ifun(rng, m=None, ps=None, og=None):
+    """INTEGER- / BOOL-valued user functions: indicator (p > c), count of thresholds passed, sign, floor of a polynomial p;
+    returned as bool / int64 / int32 / int16 / int8 / uint8 / float32 / float16 arrays or as a Python list.  With a mask:
+    the boundary p = c goes through a pixel centre or a pixel corner (half / quarter covered pixels)"""
+    c = lambda: F(rng.randint(-8, 8), 4)
+    r = rng.random()
+    if m is not None and unmasked(m) and r < 0.6:
+        psf = (F(ps[0]), F(ps[1])); ogf = (F(og[0]), F(og[1]))
+        cy, cx = ref_centre(m, psf, ogf, rng.choice(unmasked(m)))
+        if rng.random() < 0.3: cy += psf[0] / 2 * rng.choice([-1, 1]); cx += psf[1] / 2 * rng.choice([-1, 1])
+        a, b = rng.choice([(1, 0), (0, 1), (1, 1), (1, -1), (-1, 0), (0, -1), (2, 1), (1, -2)])
+        terms = [[0, 0, fs(-a * cy - b * cx)], [1, 0, fs(a)], [0, 1, fs(b)]]
+        if rng.random() < 0.3: terms += [[2, 0, fs(F(rng.randint(-2, 2), 4))], [0, 2, fs(F(rng.randint(-2, 2), 4))]]
+        f = {"absy": False, "absx": False, "terms": terms}
+    else:
+        f = rand_poly(rng, rng.choice(["affine", "affine", "poly", "abs"]))
+    k = rng.choice(["ind", "ind", "ind", "count", "count", "sign", "floor"])
+    if k == "ind":
+        f["post"] = {"k": "count", "off": 0, "cuts": [rng.choice(["0", "0", "0", fs(c())])]}
+        f["dt"] = rng.choice([None, None, None, "bool", "uint8"] + INT_DT)          # None: the bool array of the comparison itself
+    elif k == "count":
+        f["post"] = {"k": "count", "off": rng.choice([0, 1, 1, 2, -1, -3]), "cuts": sorted({fs(c()) for _ in range(rng.choice([1, 2, 3]))}, key=F)}
+        f["dt"] = rng.choice(INT_DT)
+    elif k == "sign":
+        f["post"] = {"k": "sign"}; f["dt"] = rng.choice(INT_DT)
+    else:
+        f["post"] = {"k": "floor"}; f["dt"] = rng.choice(["int64", "int32", "float32", "float64", "list", None])
+    if f["dt"] != "list" and rng.random() < 0.15: f["cont"] = "irr"
+    return f
+def rand_fun(rng, m=None, ps=None, og=None, p_int=0.35):
+    """a user function: real-valued polynomial (float64; sometimes float32 where exact, or a Python list) or integer-valued"""
+    if rng.random() < p_int: return rand_ifun(rng, m, ps, og)
+    f = rand_poly(rng)
+    r = rng.random()
+    if r < 0.08: f["dt"] = "list"
+    elif r < 0.2: f["dt"] = "f32ok"
+    elif r < 0.3: f["cont"] = "irr"
+    return f
+BIN_DT = [None, None, "int64", "int32", "int16", "int8", "bool", "uint8", "float32", "float16", "list", "ilist", "irr", "iirr"]
+def rand_subvalues(rng, tot, dt):
+    """sub-values for binned_array_2d_from, as JSON rationals; `dt` = dtype / container they are passed in (exact casts)"""
+    if dt in ("bool",): return [str(rng.randint(0, 1)) for _ in range(tot)]
+    if dt in ("uint8",): return [str(rng.randint(0, 9)) for _ in range(tot)]
+    if dt in ("int64", "int32", "int16", "int8", "ilist", "iirr"): return [str(rng.randint(-9, 9)) for _ in range(tot)]
+    return [fs(F(rng.randint(-64, 64), 8)) for _ in range(tot)]
+def np_subvalues(vals, dt, util=False):
+    """vals: python floats"""
+    if dt == "list": return np.array(vals, dtype=float) if util else list(vals)
+    if dt == "ilist": return np.array([int(v) for v in vals]) if util else [int(v) for v in vals]
+    if dt in ("irr", "iirr"):
+        a = np.array(vals, dtype=float) if dt == "irr" else np.array([int(v) for v in vals])
+        return a if util else import_aa().ArrayIrregular(values=a)
+    return np.array(vals, dtype=float).astype(dt) if dt else np.array(vals, dtype=float)
 def maybe_scaled(rng, f, p=0.15):
     return scaled(f, rng.choice([-40, -30, -20, 20, 30])) if rng.random() < p else f
 def bowl(K, a, b, y0, x0):
@@ -196,7 +297,7 @@ def bowl_family(rng, m, ps, og, k):
         if r < 0.3: fs_.append(f1)                              # the same function again
         elif r < 0.6: fs_.append(rng.choice(mirrors))
         elif r < 0.85: fs_.append(one(rng.randint(-(H - 1), H - 1), rng.randint(-(W - 1), W - 1))[0])
-        else: fs_.append(rand_poly(rng))
+        else: fs_.append(rand_fun(rng, m, ps, og, 0.5))
     return fs_
 def permuted_mask(rng, m):
     """same shape, same number of unmasked pixels, other positions"""
@@ -272,10 +373,12 @@ def gen_inputs(tier, rng):
                     via = "class" if (n > 0 and (mi // 3 + sidx) % 3 != 0) else "util"
                     ps, og = [["1", "1"], ["2", "1/2"], ["1/4", "4"]][i % 3], [["0", "0"], ["1/4", "-1/2"], ["-3/4", "2"]][(i // 3) % 3]
                     if big or s < 4 or rot == 0:
-                        yield {"op": "grid", "m": m, "ps": ps, "og": og, "ss": [s] * n, "via": via, "int": via == "class"}
+                        yield {"op": "grid", "m": m, "ps": ps, "og": og, "ss": [s] * n, "via": via, "int": via == "class", "gint": i % 2 == 0}
                     if big or rot == 0:      # quick tier: index table and binning at one (rotating) sub-size per mask
                         yield {"op": "slimsub", "m": m, "ss": [s] * n, "via": via, "int": via == "class"}
-                        yield {"op": "bin", "m": m, "ss": [s] * n, "arr": [str(3 * k - 7) for k in range(n * s * s)], "via": via, "int": via == "class"}
+                        # distinct integers, passed as float64 / int64 / int32 / int16 / float32 arrays or a Python list (rotating)
+                        yield {"op": "bin", "m": m, "ss": [s] * n, "arr": [str(3 * k - 7) for k in range(n * s * s)], "via": via, "int": via == "class",
+                               "dt": [None, "int64", "int32", "ilist", "int16", "float32"][mi % 6]}
                 if n > 0 and mi % 4 == 0:
                     yield {"op": "grid", "m": m, "ps": ["3/2", "1"], "og": ["1/4", "0"], "ss": [3] * n, "via": "class", "int": True}
                     yield {"op": "nativesub", "m": m, "ss": [2] * n, "via": "class", "int": True}
@@ -288,24 +391,29 @@ def gen_inputs(tier, rng):
         ss = [rng.choice([1, 2, 4, 8])] * n if uniform else [rng.choice([1, 1, 2, 2, 4, 8]) for _ in range(n)]
         via = rng.choice(["class", "util"])
         fl = via == "class" and rng.random() < 0.4          # float-typed per-pixel map
-        yield {"op": "grid", "m": m, "ps": ps, "og": og, "ss": ss, "via": via, "int": uniform and via == "class" and not fl, "fl": fl}
+        yield {"op": "grid", "m": m, "ps": ps, "og": og, "ss": ss, "via": via, "int": uniform and via == "class" and not fl, "fl": fl,
+               "gint": rng.random() < 0.3, "mkind": rng.choice([None, None, "int", "list"]), "sskind": rng.choice([None, None, "int32", "list"])}
         yield {"op": "slimsub", "m": m, "ss": ss, "via": via, "int": False, "fl": fl}
         yield {"op": "nativesub", "m": m, "ss": ss, "via": via, "int": False, "fl": fl}
         tot = sum(s * s for s in ss)
-        yield {"op": "bin", "m": m, "ss": ss, "arr": [fs(F(rng.randint(-64, 64), 8)) for _ in range(tot)], "via": via, "int": False, "fl": fl}
-        yield {"op": "areas", "m": m, "ps": ps, "ss": ss, "fl": fl}
-        f = maybe_scaled(rng, rand_poly(rng))
-        yield {"op": "viafunc", "m": m, "ps": ps, "og": og, "ss": ss, "f": f, "fl": fl, "via": rng.choice(["sampler", "sampler", "oversampled"]),
-               "mder": rng.choice([None, None, "array", "grid"]), "ssder": rng.choice([None, None, "native_in", "arith"])}
+        dt = rng.choice(BIN_DT)
+        yield {"op": "bin", "m": m, "ss": ss, "arr": rand_subvalues(rng, tot, dt), "dt": dt, "via": via, "int": False, "fl": fl,
+               "mkind": rng.choice([None, None, "int", "list"])}
+        yield {"op": "areas", "m": m, "ps": ps, "ss": ss, "fl": fl, "gint": rng.random() < 0.3}
+        f = maybe_scaled(rng, rand_fun(rng, m, ps, og))
+        yield {"op": "viafunc", "m": m, "ps": ps, "og": og, "ss": ss, "f": f, "fl": fl, "via": rng.choice(["sampler", "sampler", "oversampled", "oversampled_sub"]),
+               "mder": rng.choice([None, None, "array", "grid"]), "ssder": rng.choice([None, None, "native_in", "arith"]),
+               "gint": rng.random() < 0.2, "sskind": rng.choice([None, None, None, "int32", "list"])}
         # decorator: uniform int / map / all-ones map / dataset grids
         r = rng.random()
         if r < 0.3: os = {"kind": "int", "s": rng.choice([1, 2, 4, 8])}
         elif r < 0.45: os = {"kind": "map", "ss": [1] * n}
         else: os = {"kind": "map", "ss": ss, "fl": rng.random() < 0.4, "ssder": rng.choice([None, None, None, "native_in", "arith"])}
-        yield {"op": "decor", "m": m, "ps": ps, "og": og, "os": os, "f": maybe_scaled(rng, rand_poly(rng)),
+        if rng.random() < 0.15: os["sub"] = True          # an instance of a user SUBCLASS of the configuration class
+        yield {"op": "decor", "m": m, "ps": ps, "og": og, "os": os, "f": maybe_scaled(rng, rand_fun(rng, m, ps, og)),
                "via": rng.choice(["from_mask", "from_mask", "dataset", "dataset", "dataset_nu", "dataset_pixgrid",
-                                  "derived_arith", "derived_rewrap", "derived_native_slim"]),
-               "mder": rng.choice([None, None, None, "array", "grid"])}
+                                  "derived_arith", "derived_rewrap", "derived_native_slim", "subclass"]),
+               "mder": rng.choice([None, None, None, "array", "grid"]), "gint": rng.random() < 0.2}
     # dataset pixelization default (sub_size 4)
     for _ in range(40 if big else 8):
         m = rand_mask(rng, 4, 4, 8); ps, og = rand_geo(rng)
@@ -323,13 +431,21 @@ def gen_inputs(tier, rng):
         elif r < 0.28: f = {"absy": False, "absx": False, "terms": [[0, 0, "0"]]}
         elif r < 0.35:   # positive, slowly varying: agreement is reached early
             f = {"absy": False, "absx": False, "terms": [[0, 0, fs(F(rng.randint(64, 256)))], [2, 0, fs(F(rng.randint(0, 8), 4))], [0, 2, fs(F(rng.randint(0, 8), 4))]]}
-        if f is None: f = rand_poly(rng)
-        if rng.random() < 0.15:          # tiny / huge magnitudes; the absolute tolerance scales with the function
+        elif r < 0.50:   # integer- / bool-valued functions (indicator, count, sign, floor) in bool / intN / float32 arrays or lists
+            f = rand_ifun(rng, m, ps, og)
+            if rng.random() < 0.5 and f["post"]["k"] == "count":
+                f["post"]["off"] = rng.choice([1, 1, 2, 4])     # positive levels: ratios are defined
+                if f["dt"] == "bool": f["dt"] = rng.choice(INT_DT)
+            if len(steps) < 2 or rng.random() < 0.5: steps = rng.choice([[2, 4], [2, 4, 8], [2, 2, 4], [4, 8], [2, 4, 4]])
+        if f is None: f = rand_fun(rng, p_int=0.0)
+        if rng.random() < 0.15 and not f.get("post"):          # tiny / huge magnitudes; the absolute tolerance scales with the function
             e = rng.choice([-40, -30, -20, 20, 30]); f = scaled(f, e)
             if rel is not None: rel = fs(F(rel) * F(2) ** e)
-        via = rng.choice(["class", "class", "decor", "dataset"])
-        if via == "class": yield {"op": "iter", "m": m, "ps": ps, "og": og, "thr": thr, "rel": rel, "steps": steps, "f": f}
-        else: yield {"op": "decor", "m": m, "ps": ps, "og": og, "os": {"kind": "iter", "thr": thr, "rel": rel, "steps": steps}, "f": f, "via": "from_mask" if via == "decor" else "dataset"}
+        via = rng.choice(["class", "class", "decor", "dataset", "subclass"])
+        ik = rng.random() < 0.2
+        if via == "class": yield {"op": "iter", "m": m, "ps": ps, "og": og, "thr": thr, "rel": rel, "steps": steps, "f": f, "ikind": ik, "gint": rng.random() < 0.2}
+        else: yield {"op": "decor", "m": m, "ps": ps, "og": og, "os": {"kind": "iter", "thr": thr, "rel": rel, "steps": steps, "sub": via == "subclass", "ikind": ik}, "f": f,
+                     "via": {"decor": "from_mask", "dataset": "dataset", "subclass": "subclass"}[via], "gint": rng.random() < 0.2}
     # decisions exactly ON the boundary: f = c*y^2, a row of pixel centres at |y| = ps_y/4 => level_0/level_2 = 1/2 exactly
     # there (threshold 1/2 must ACCEPT: `<`, not `<=`); level_2 - level_0 = c*ps_y^2/16 at every pixel (absolute tolerance
     # equal to it must ACCEPT: `>`, not `>=`)
@@ -372,7 +488,7 @@ def gen_inputs(tier, rng):
             yield {"op": "seq", "share": True, "steps": [{"op": "iter", "m": m, "ps": ps, "og": og, "thr": thr, "rel": rel, "steps": steps, "f": f} for f in fs_]}
         elif r < 0.85:
             yield {"op": "hgrid", "m": m, "ps": ps, "og": og, "os": {"kind": "iter", "thr": thr, "rel": rel, "steps": steps}, "fs": fs_,
-                   "via": rng.choice(["from_mask", "from_mask", "dataset", "dataset_nu", "derived_arith", "derived_rewrap", "derived_native_slim"]),
+                   "via": rng.choice(["from_mask", "from_mask", "dataset", "dataset_nu", "derived_arith", "derived_rewrap", "derived_native_slim", "subclass"]),
                    "one_profile": rng.random() < 0.3, "mder": rng.choice([None, None, "array", "grid"])}
         else:      # the same grid / over sampler reached through the pool, other operations on the same mask in between
             os = {"kind": "iter", "thr": thr, "rel": rel, "steps": steps}; n = len(unmasked(m))
@@ -389,7 +505,8 @@ def gen_inputs(tier, rng):
         ss = [rng.choice([1, 2, 4])] * n if as_int else [rng.choice([1, 1, 2, 2, 4, 8]) for _ in range(n)]
         cur = list(ss); st = []
         def binstep():
-            return {"do": "bin", "arr": [fs(F(rng.randint(-64, 64), 8)) for _ in range(sum(s * s for s in cur))]}
+            dt = rng.choice(BIN_DT)
+            return {"do": "bin", "arr": rand_subvalues(rng, sum(s * s for s in cur), dt), "dt": dt}
         for _ in range(rng.choice([0, 1, 1, 2, 2, 3])):       # nothing cached yet: read -> in-place edit -> re-read
             what = rng.choice(["areas", "areas", "bin", "both"])
             def reads():
@@ -402,14 +519,14 @@ def gen_inputs(tier, rng):
         for _ in range(rng.choice([3, 4, 5, 6])):
             r = rng.random()
             if r < 0.2: st.append({"do": "grid"})
-            elif r < 0.55: st.append({"do": "via", "f": maybe_scaled(rng, rand_poly(rng)), "via": rng.choice(["sampler", "sampler", "oversampled"]), "obj": rng.choice([None, 1])})
+            elif r < 0.55: st.append({"do": "via", "f": maybe_scaled(rng, rand_fun(rng, m, ps, og)), "via": rng.choice(["sampler", "sampler", "oversampled"]), "obj": rng.choice([None, 1])})
             elif r < 0.65: st.append({"do": "slim"})
             elif r < 0.75: st.append({"do": "native"})
             elif r < 0.85: st.append({"do": "areas"})
             else: st.append(binstep())
         yield {"op": "hsampler", "m": m, "ps": ps, "og": og, "ss": ss, "int": as_int, "fl": (not as_int) and rng.random() < 0.3,
                "ssder": None if as_int else rng.choice([None, None, "native_in", "arith"]), "steps": st,
-               "mder": rng.choice([None, None, "array", "grid"])}
+               "mder": rng.choice([None, None, "array", "grid"]), "gint": rng.random() < 0.2}
     # d3: ONE Grid2D with OverSamplingUniform(int | map): k decorated calls
     for k in range(300 if big else 40):
         m = rand_mask(rng, 4, 4, 8); n = len(unmasked(m)); ps, og = rand_geo(rng)
@@ -418,10 +535,10 @@ def gen_inputs(tier, rng):
         elif r < 0.4: os = {"kind": "map", "ss": [1] * n}
         else: os = {"kind": "map", "ss": [rng.choice([1, 1, 2, 2, 4, 8]) for _ in range(n)], "fl": rng.random() < 0.4,
                     "ssder": rng.choice([None, None, "native_in", "arith"])}
-        fs_ = [maybe_scaled(rng, rand_poly(rng)) for _ in range(rng.choice([2, 3, 3]))]
+        fs_ = [maybe_scaled(rng, rand_fun(rng, m, ps, og)) for _ in range(rng.choice([2, 3, 3]))]
         if rng.random() < 0.5: fs_.append(fs_[0])
         yield {"op": "hgrid", "m": m, "ps": ps, "og": og, "os": os, "fs": fs_, "one_profile": rng.random() < 0.3,
-               "via": rng.choice(["from_mask", "dataset", "dataset_nu", "dataset_pixgrid", "derived_arith", "derived_rewrap", "derived_native_slim"]),
+               "via": rng.choice(["from_mask", "dataset", "dataset_nu", "dataset_pixgrid", "derived_arith", "derived_rewrap", "derived_native_slim", "subclass"]),
                "mder": rng.choice([None, None, "array", "grid"])}
     # d4: sequences of single operations in ONE process on RELATED inputs (same shape and pixel count at other positions, other
     #     origin / scales), on fresh objects or on shared ones: a module-level or object-level memo keyed too coarsely
@@ -431,14 +548,14 @@ def gen_inputs(tier, rng):
         rng.shuffle(variants); variants = variants[:rng.choice([3, 4])]
         kind = rng.choice(["grid", "grid", "bin", "idx", "viafunc", "decor", "iter", "mixed"])
         s0 = rng.choice([1, 2, 4]); ss = [s0] * n if rng.random() < 0.4 else [rng.choice([1, 2, 2, 4]) for _ in range(n)]
-        f = rand_poly(rng); via = rng.choice(["class", "util"])
+        f = rand_fun(rng, m, ps, og); via = rng.choice(["class", "util"])
         thr, rel = rand_thr(rng); steps = rng.choice([[2, 4], [2, 4, 8], [2], [4, 8]])
-        arr = [fs(F(rng.randint(-64, 64), 8)) for _ in range(sum(s * s for s in ss))]
+        dt = rng.choice(BIN_DT); arr = rand_subvalues(rng, sum(s * s for s in ss), dt)
         st = []
         for (mm, pp, oo) in variants:
             kk = rng.choice(["grid", "bin", "idx", "viafunc", "decor", "iter"]) if kind == "mixed" else kind
             if kk == "grid": st.append({"op": "grid", "m": mm, "ps": pp, "og": oo, "ss": ss, "via": via, "int": False})
-            elif kk == "bin": st.append({"op": "bin", "m": mm, "ss": ss, "arr": arr, "via": via, "int": False})
+            elif kk == "bin": st.append({"op": "bin", "m": mm, "ss": ss, "arr": arr, "dt": dt, "via": via, "int": False})
             elif kk == "idx":
                 st.append({"op": "slimsub", "m": mm, "ss": ss, "via": via, "int": False})
                 st.append({"op": "nativesub", "m": mm, "ss": ss, "via": via, "int": False})
@@ -455,7 +572,7 @@ def gen_inputs(tier, rng):
         else:
             thr, rel = rand_thr(rng); os = {"kind": "iter", "thr": thr, "rel": rel, "steps": rng.choice([[2, 4], [2, 4, 8], [4, 8]])}
         m1 = rand_mask(rng, 4, 4, 8); m2 = rand_mask(rng, 4, 4, 8); m3 = permuted_mask(rng, m1)
-        st = [{"op": "decor", "m": mm, "ps": ps, "og": og, "os": os, "f": rand_poly(rng), "via": rng.choice(["from_mask", "dataset"])}
+        st = [{"op": "decor", "m": mm, "ps": ps, "og": og, "os": os, "f": rand_fun(rng, mm, ps, og), "via": rng.choice(["from_mask", "dataset"])}
               for mm in (m1, m2, m3, m1)]
         if rng.random() < 0.3:      # a call that raises (empty schedule: IndexError) must leave nothing behind for the next call
             bad = {"kind": "iter", "thr": "1/2", "rel": None, "steps": []}
@@ -465,7 +582,7 @@ def gen_inputs(tier, rng):
     for k in range(40 if big else 6):
         m = rand_mask(rng, 2, 2, 3); ps, og = rand_geo(rng)
         os = {"kind": "iter", "thr": fs(F(0.9999)), "rel": None, "steps": [2, 4, 8, 16], "default": True}
-        yield {"op": "hgrid", "m": m, "ps": ps, "og": og, "os": os, "fs": bowl_family(rng, m, ps, og, 2) + [rand_poly(rng, "affine")],
+        yield {"op": "hgrid", "m": m, "ps": ps, "og": og, "os": os, "fs": bowl_family(rng, m, ps, og, 2) + [rand_poly(rng, "affine"), rand_ifun(rng, m, ps, og)],
                "via": rng.choice(["from_mask", "dataset"]), "one_profile": False}
     # (c) tolerance stream
     for _ in range(600 if big else 60):
@@ -473,10 +590,11 @@ def gen_inputs(tier, rng):
         ss = [rng.choice([1, 2, 3, 3, 5, 6, 7]) for _ in range(n)]
         yield {"op": "grid", "m": m, "ps": ps, "og": og, "ss": ss, "via": rng.choice(["class", "util"]), "int": False}
         tot = sum(s * s for s in ss)
-        yield {"op": "bin", "m": m, "ss": ss, "arr": [fs(F(rng.randint(-64, 64), 8)) for _ in range(tot)], "via": "class", "int": False}
+        dt = rng.choice(BIN_DT)
+        yield {"op": "bin", "m": m, "ss": ss, "arr": rand_subvalues(rng, tot, dt), "dt": dt, "via": rng.choice(["class", "util"]), "int": False}
         yield {"op": "areas", "m": m, "ps": ps, "ss": ss}
-        yield {"op": "viafunc", "m": m, "ps": ps, "og": og, "ss": ss, "f": rand_poly(rng)}
-        yield {"op": "decor", "m": m, "ps": ps, "og": og, "os": {"kind": "int", "s": rng.choice([3, 5, 6, 7])}, "f": rand_poly(rng), "via": "from_mask"}
+        yield {"op": "viafunc", "m": m, "ps": ps, "og": og, "ss": ss, "f": rand_fun(rng, m, ps, og, 0.5)}
+        yield {"op": "decor", "m": m, "ps": ps, "og": og, "os": {"kind": "int", "s": rng.choice([3, 5, 6, 7])}, "f": rand_fun(rng, m, ps, og, 0.5), "via": "from_mask"}
 
 # ----------------------------------------------------------------------------- implementation calls
 def is_exact(ps, ss):
@@ -511,6 +629,10 @@ class Ctx:
             try: msg = w(o)
             except Exception as e: msg = "unreadable: " + type(e).__name__
             if msg: bad.append(f"input modified by a call: {msg} ({k[:80]})")
+        for v, snap in RETS:
+            try: ok = ret_values(v) == snap
+            except Exception: ok = False
+            if not ok: bad.append("the array returned by the user function was modified by the call"); break
         for what, obj, conv, snap in self.results:
             try: ok = conv(obj) == snap
             except Exception: ok = False
@@ -534,20 +656,42 @@ def profile_cls():
         _PROFILE.append(Profile)
     return _PROFILE[0]
 
+_SUBCLS = []
+def user_subclasses():
+    """trivial user subclasses of Grid2D / OverSamplingUniform / OverSamplingIterate / Grid2DOverSampled (dispatch must use isinstance)"""
+    if not _SUBCLS:
+        aa = import_aa()
+        from autoarray.operators.over_sampling.uniform import OverSamplingUniform
+        from autoarray.operators.over_sampling.iterate import OverSamplingIterate
+        from autoarray.operators.over_sampling.grid_oversampled import Grid2DOverSampled
+        class UserGrid2D(aa.Grid2D): pass
+        class UserOverSamplingUniform(OverSamplingUniform): pass
+        class UserOverSamplingIterate(OverSamplingIterate): pass
+        class UserGrid2DOverSampled(Grid2DOverSampled): pass
+        _SUBCLS.extend([UserGrid2D, UserOverSamplingUniform, UserOverSamplingIterate, UserGrid2DOverSampled])
+    return _SUBCLS[:3]
+def oversampled_cls(sub=False):
+    user_subclasses()
+    return _SUBCLS[3] if sub else import_aa().Grid2DOverSampled
+
 class Env:
     """geometry + object construction of one step (through the context's pool)"""
     def __init__(self, inp, ctx):
         self.aa = import_aa(); self.inp = inp; self.ctx = ctx
         self.m = inp.get("m")
-        self.ps = tuple(float(F(p)) for p in inp["ps"]) if "ps" in inp else (1.0, 1.0)
-        self.og = tuple(float(F(p)) for p in inp["og"]) if "og" in inp else (0.0, 0.0)
+        # gint: integral pixel scales / origins are passed as Python ints (Mask2D(pixel_scales=1), origin=(0, 0))
+        num = (lambda p: int(F(p)) if F(p).denominator == 1 else float(F(p))) if inp.get("gint") else (lambda p: float(F(p)))
+        self.ps = tuple(num(p) for p in inp["ps"]) if "ps" in inp else (1.0, 1.0)
+        self.og = tuple(num(p) for p in inp["og"]) if "og" in inp else (0.0, 0.0)
         self.psq = tuple(F(p) for p in self.ps); self.ogq = tuple(F(p) for p in self.og)      # the doubles actually passed, exactly
-        self.marr = np.array(self.m, dtype=bool) if self.m is not None else None            # for the util functions
-        self.mkey = ["mask", self.m, inp.get("ps"), inp.get("og"), inp.get("mder")]
+        # mkind: the mask is given as an integer (0/1) array or as a list of lists
+        self.mkind = inp.get("mkind")
+        self.marr = (np.array(self.m, dtype=int if self.mkind == "int" else bool)) if self.m is not None else None            # for the util functions
+        self.mkey = ["mask", self.m, inp.get("ps"), inp.get("og"), inp.get("mder"), bool(inp.get("gint")), self.mkind]
     def mask(self):
-        aa = self.aa; m = self.m; ps = self.ps; og = self.og; der = self.inp.get("mder")
+        aa = self.aa; m = self.m; ps = self.ps; og = self.og; der = self.inp.get("mder"); mkind = self.mkind
         def ctor():
-            mk = aa.Mask2D(mask=np.array(m, dtype=bool), pixel_scales=ps, origin=og)
+            mk = aa.Mask2D(mask=[list(r) for r in m] if mkind == "list" else np.array(m, dtype=int if mkind == "int" else bool), pixel_scales=ps, origin=og)
             n = len(unmasked(m))
             # DERIVED mask objects: the mask carried by the result of arithmetic / by a grid built from the mask
             if der == "array" and n: mk = (aa.Array2D(values=np.arange(1.0, n + 1.0), mask=mk) * 2.0).mask
@@ -560,8 +704,11 @@ class Env:
     def ssmap(self, ss, fl=False, der=None, cur=None):
         """the per-pixel sub-size map; `cur` = a list the caller keeps up to date with its own in-place edits"""
         aa = self.aa; mask = self.mask(); m = self.m; cur = cur if cur is not None else list(ss)
+        sskind = self.inp.get("sskind")
         def ctor():
             a = np.array(ss, dtype=float if fl else int)
+            if sskind == "int32" and not fl: a = a.astype(np.int32)
+            if sskind == "list" and not der: return aa.Array2D(values=[float(v) if fl else int(v) for v in ss], mask=mask)
             if der == "native_in":      # built from the user's 2-D (native) array
                 nat = np.zeros((len(m), len(m[0])), dtype=a.dtype)
                 for v, (y, x) in zip(a, unmasked(m)): nat[y, x] = v
@@ -571,7 +718,7 @@ class Env:
             return aa.Array2D(values=a, mask=mask)
         def watch(o):
             if [int(v) for v in np.array(o)] != [int(v) for v in cur]: return "sub-size map"
-        return self.ctx.get(["ssmap", self.mkey, list(ss), fl, der], ctor, watch)
+        return self.ctx.get(["ssmap", self.mkey, list(ss), fl, der, sskind], ctor, watch)
     def sampler(self, ss, as_int, cur=None):
         from autoarray.operators.over_sampling.uniform import OverSamplerUniform
         fl = bool(self.inp.get("fl")); der = self.inp.get("ssder")
@@ -579,26 +726,36 @@ class Env:
             if as_int and ss: return OverSamplerUniform(mask=self.mask(), sub_size=int(ss[0]))
             # float-typed maps are what OverSamplingUniform.from_radial_bins / from_adaptive_scheme build (repo fix edc1970, found by C06)
             return OverSamplerUniform(mask=self.mask(), sub_size=self.ssmap(ss, fl, der, cur))
-        return self.ctx.get(["smp", self.mkey, list(ss), bool(as_int and ss), fl, der], ctor)
+        return self.ctx.get(["smp", self.mkey, list(ss), bool(as_int and ss), fl, der, self.inp.get("sskind")], ctor)
     def os_obj(self, os):
         from autoarray.operators.over_sampling.uniform import OverSamplingUniform
         from autoarray.operators.over_sampling.iterate import OverSamplingIterate
         fl = lambda t: None if t is None else float(F(t))
+        sub = bool(os.get("sub"))
+        if sub:      # instances of user SUBCLASSES of the configuration classes
+            OverSamplingUniform, OverSamplingIterate = user_subclasses()[1:]
+        def w_iter(thr, rel, steps):       # the configuration object must still hold what the caller put there
+            return lambda o: None if (o.fractional_accuracy, o.relative_accuracy, list(o.sub_steps)) == (thr, rel, list(steps)) else "OverSamplingIterate attributes"
         if os["kind"] == "int":
-            return self.ctx.get(["os", "int", os["s"]], lambda: OverSamplingUniform(sub_size=int(os["s"])))
+            return self.ctx.get(["os", "int", os["s"], sub], lambda: OverSamplingUniform(sub_size=int(os["s"])),
+                                lambda o: None if type(o.sub_size) is int and o.sub_size == int(os["s"]) else "OverSamplingUniform.sub_size")
         if os["kind"] == "map":
-            return self.ctx.get(["os", "map", self.mkey, os["ss"], bool(os.get("fl")), os.get("ssder")],
+            return self.ctx.get(["os", "map", self.mkey, os["ss"], bool(os.get("fl")), os.get("ssder"), sub],
                                 lambda: OverSamplingUniform(sub_size=self.ssmap(os["ss"], bool(os.get("fl")), os.get("ssder"))))
         if os.get("default"):      # every argument left at its default: fractional accuracy 0.9999, schedule [2, 4, 8, 16]
-            return self.ctx.get(["os", "iter-default"], lambda: OverSamplingIterate())
-        return self.ctx.get(["os", "iter", os["thr"], os["rel"], os["steps"]],
-                            lambda: OverSamplingIterate(fractional_accuracy=fl(os["thr"]), relative_accuracy=fl(os["rel"]), sub_steps=list(os["steps"])))
+            return self.ctx.get(["os", "iter-default"], lambda: OverSamplingIterate(), w_iter(0.9999, None, [2, 4, 8, 16]))
+        ik = bool(os.get("ikind"))      # ikind: the schedule is a tuple, integral thresholds are Python ints
+        if ik: fl = lambda t: None if t is None else (int(F(t)) if F(t).denominator == 1 else float(F(t)))
+        return self.ctx.get(["os", "iter", os["thr"], os["rel"], os["steps"], sub, ik],
+                            lambda: OverSamplingIterate(fractional_accuracy=fl(os["thr"]), relative_accuracy=fl(os["rel"]),
+                                                        sub_steps=tuple(os["steps"]) if ik else list(os["steps"])),
+                            w_iter(fl(os["thr"]), fl(os["rel"]), os["steps"]))
     def grid(self, os, via):
         """the Grid2D a decorated method is called with"""
         from autoarray.dataset.grids import GridsDataset
         from autoarray.dataset.over_sampling import OverSamplingDataset
         aa = self.aa
-        oskey = [os.get(k) for k in ("kind", "s", "ss", "fl", "ssder", "thr", "rel", "steps", "default")]
+        oskey = [os.get(k) for k in ("kind", "s", "ss", "fl", "ssder", "thr", "rel", "steps", "default", "sub", "ikind")]
         def ctor():
             mask = self.mask(); osobj = self.os_obj(os)
             if via.startswith("dataset"):
@@ -610,11 +767,30 @@ class Env:
             if via == "derived_arith": g = (g + 0.0) * 1.0
             elif via == "derived_rewrap": g = aa.Grid2D(values=g, mask=g.mask, over_sampling=g.over_sampling)
             elif via == "derived_native_slim": g = g.native.slim
+            elif via == "subclass": g = user_subclasses()[0](values=g, mask=g.mask, over_sampling=g.over_sampling)      # a user subclass of Grid2D
             return g
         g = self.ctx.get(["grid", self.mkey, oskey, via], ctor)
         snap = np.array(g).copy()
         self.ctx.watches.append(("grid values", g, lambda o: None if np.array_equal(np.array(o), snap) else "grid values"))
         return g
+
+def near_jump(f, env, ss):
+    """non-dyadic geometry only (the sub-grid coordinates carry rounding errors): does a sub-pixel centre lie within 1e-6 of a
+    jump of the integer-valued function (p = cut, p = 0, p integral)?  Exact classification from the input."""
+    p = f.get("post")
+    if not p: return False
+    g = dict(f); g["post"] = None
+    tol = F(1, 10 ** 6)
+    for px, s in zip(unmasked(env.m), ss):
+        cy, cx = ref_centre(env.m, env.psq, env.ogq, px)
+        for a in range(s):
+            for b in range(s):
+                v = fr_ufun(g, cy + env.psq[0] / 2 - (a + F(1, 2)) * env.psq[0] / s, cx - env.psq[1] / 2 + (b + F(1, 2)) * env.psq[1] / s)
+                if p["k"] == "count": d = min(abs(v - F(c)) for c in p["cuts"])
+                elif p["k"] == "sign": d = abs(v)
+                else: d = abs(v - round(v))
+                if d < tol: return True
+    return False
 
 def classify_iter(f, env, os):
     """(os with the doubles actually passed as exact rationals, all-zero?, in-band?)"""
@@ -660,8 +836,9 @@ def run_one(inp, ctx):
         nontrivial = len(out) > 0
     elif op == "bin":
         vals = [float(F(v)) for v in inp["arr"]]
-        arr = np.array(vals, dtype=float)
-        ctx.watches.append(("arr", arr, lambda o: None if list(o) == vals else "the array of sub-values passed to binned_array_2d_from"))
+        arr = np_subvalues(vals, inp.get("dt"), util=inp["via"] == "util")       # float64 / intN / bool / float32 array or Python list
+        ctx.watches.append(("arr", arr, lambda o: None if [float(v) for v in o] == vals and type(o) is type(arr) and getattr(o, "dtype", None) == getattr(arr, "dtype", None)
+                            else "the array of sub-values passed to binned_array_2d_from"))
         if inp["via"] == "util": b = U.binned_array_2d_from(array_2d=arr, mask_2d=marr, sub_size=ssa)
         else: b = env.sampler(ss, inp["int"]).binned_array_2d_from(array=arr)
         out = qlist(b); ctx.returned("binned array", b, qlist)
@@ -687,9 +864,12 @@ def run_one(inp, ctx):
     elif op == "viafunc":
         fn = np_ufun(inp["f"])
         def func(*a): g = np.array(a[-1]); return fn(g[:, 0], g[:, 1])      # func(grid) if obj is None else func(obj, grid)
+        if not ex and near_jump(inp["f"], env, ss):
+            SKIPPED_IN_BAND[0] += 1
+            return {"coq": None, "out": None, "nontrivial": False, "kind": op + "-skipped-in-band", "skipped": True}
         smp = env.sampler(ss, False)
-        if inp.get("via") == "oversampled":       # decorator branch `isinstance(grid, Grid2DOverSampled)`: func on grid.grid, then binned
-            r = Profile(fn).image_2d_from(aa.Grid2DOverSampled(grid=smp.over_sampled_grid, over_sampler=smp, pixels_in_mask=len(ss)))
+        if str(inp.get("via")).startswith("oversampled"):       # decorator branch `isinstance(grid, Grid2DOverSampled)`: func on grid.grid, then binned
+            r = Profile(fn).image_2d_from(oversampled_cls(inp["via"] == "oversampled_sub")(grid=smp.over_sampled_grid, over_sampler=smp, pixels_in_mask=len(ss)))
         else:
             r = smp.array_via_func_from(func, None if len(ss) % 2 else object())
         out = qlist(r); ctx.returned("array_via_func_from", r, qlist)
@@ -707,12 +887,20 @@ def run_one(inp, ctx):
             ex = is_exact(inp["ps"], os["steps"])
         else:
             osq = os
-            ex = is_exact(inp["ps"], os["ss"] if os["kind"] == "map" else [os["s"]])
+            ssu = os["ss"] if os["kind"] == "map" else [os["s"]] * len(unmasked(m))
+            ex = is_exact(inp["ps"], ssu)
+            if not ex and near_jump(f, env, ssu):
+                SKIPPED_IN_BAND[0] += 1
+                return {"coq": None, "out": None, "nontrivial": False, "kind": op + "-skipped-in-band", "skipped": True}
         if op == "iter":
             def func(obj, grid, *a, **k): g = np.array(grid); return fn(g[:, 0], g[:, 1])
-            smp = ctx.get(["ismp", env.mkey, os["thr"], os["rel"], os["steps"]],
+            ik = bool(inp.get("ikind"))
+            if ik: fl = lambda t: None if t is None else (int(F(t)) if F(t).denominator == 1 else float(F(t)))
+            smp = ctx.get(["ismp", env.mkey, os["thr"], os["rel"], os["steps"], ik],
                           lambda: OverSamplerIterate(mask=env.mask(), fractional_accuracy=fl(os["thr"]), relative_accuracy=fl(os["rel"]),
-                                                     sub_steps=list(os["steps"])))
+                                                     sub_steps=tuple(os["steps"]) if ik else list(os["steps"])),
+                          lambda o: None if (o.fractional_accuracy, o.relative_accuracy, list(o.sub_steps)) == (fl(os["thr"]), fl(os["rel"]), list(os["steps"]))
+                                    else "OverSamplerIterate attributes")
             res = call_res(lambda: smp.array_via_func_from(func, None))
         else:
             grid = env.grid(os, inp["via"])
@@ -754,9 +942,9 @@ def run_hsampler(inp, ctx):
             tot = sum(s * s for s in cur)
             vals = [float(F(v)) for v in st["arr"]][:tot]
             vals += [0.0] * (tot - len(vals))
-            arr = np.array(vals, dtype=float)
+            arr = np_subvalues(vals, st.get("dt"))
             r = smp.binned_array_2d_from(array=arr); o = qlist(r); ctx.returned("binned array", r, qlist)
-            ctx.watches.append(("arr", arr, lambda o, vals=vals: None if list(o) == vals else "the array of sub-values passed to binned_array_2d_from"))
+            ctx.watches.append(("arr", arr, lambda o, vals=vals: None if [float(v) for v in o] == vals else "the array of sub-values passed to binned_array_2d_from"))
             terms.append(f"CBin {cqs([F(v) for v in vals])} {cqs(o)}")
         elif do == "via":
             fn = np_ufun(st["f"])
@@ -802,7 +990,7 @@ def run_hgrid(inp, ctx):
 def run_case(inp):
     import_aa()
     op = inp["op"]
-    ctx = Ctx(share=bool(inp.get("share")))
+    ctx = Ctx(share=bool(inp.get("share"))); del RETS[:]
     finding = None; nontrivial = True; kind = op
     if op == "seq":
         terms = []; outs = []
